@@ -19,7 +19,7 @@ LEVEL = "translation_validation"
 def gen_tasks(tier, seed):
     rng = random.Random(seed + 15)
     tasks = []
-    curated = [([1, 2, 4], 7, 1), ([1, 2], 10, 1), ([3], 3, 1), ([2, 4, 6], 6, 2), ([1, 6, 4, 2], 3, 6), ([5, 3, 8], 8, 1), ([2, 2, 3], 7, 1), ([4], 2, 2), ([1, 3], 4, 3)]
+    curated = [([2, 5], 10, 1), ([5], 10, 1), ([3, 6, 4], 12, 1), ([1, 2, 4], 7, 1), ([1, 2], 10, 1), ([3], 3, 1), ([2, 4, 6], 6, 2), ([1, 6, 4, 2], 3, 6), ([5, 3, 8], 8, 1), ([2, 2, 3], 7, 1), ([4], 2, 2), ([1, 3], 4, 3)]
     for nums, tot, mult in curated:
         for wt in ("int", "float"):
             tasks.append({"kind": "genset", "numbers": nums, "total": tot, "mult": mult, "wt": wt, "partition": None})
@@ -37,6 +37,12 @@ def gen_tasks(tier, seed):
         if not nums:
             continue
         tasks.append({"kind": "genset", "numbers": sorted(nums), "total": sum(gens), "mult": mult, "wt": rng.choice(["int", "float"]), "partition": None})
+        if sum(gens) % 2 == 0 and mult == 1:
+            # a number equal to half of the total (its own complement) when it is generable
+            half = sum(gens) // 2
+            import itertools as _it
+            if any(sum(c) == half for r in range(1, len(gens) + 1) for c in _it.combinations(gens, r)):
+                tasks.append({"kind": "genset", "numbers": sorted(set(nums) | {half}), "total": sum(gens), "mult": 1, "wt": "int", "partition": None})
         if mult == 1 and len(gens) >= 2:
             # a partition of the total consistent with the generating values
             cut = rng.randint(1, len(gens) - 1)
